@@ -186,6 +186,20 @@ EvalParts(P, i, env, D) ==
        IF IsU(v) THEN Unknown
        ELSE LET rest == EvalParts(P, i + 1, env, D) IN IF IsU(rest) THEN Unknown ELSE v \o rest
 
+(* some sub-expression is Unknown under env (division by zero in an untaken branch, ...): an
+   implementation that evaluates eagerly may raise there without contradicting any value *)
+RECURSIVE Poisoned(_, _)
+Poisoned(e, env) ==
+  \/ IsU(Eval(e, env, {}))
+  \/ CASE e.k \in {"slc", "xt"} -> Poisoned(e.x, env)
+        [] e.k = "comp" -> \E i \in 1..Len(e.parts) : Poisoned(e.parts[i].t, env)
+        [] e.k = "tst" -> Poisoned(e.c, env) \/ Poisoned(e.l, env) \/ Poisoned(e.r, env)
+        [] e.k = "uop" -> Poisoned(e.r, env)
+        [] e.k = "op" -> Poisoned(e.l, env) \/ Poisoned(e.r, env)
+        [] e.k = "ptr" -> Poisoned(e.base, env)
+        [] e.k = "mem" -> Poisoned(e.a, env)
+        [] OTHER -> FALSE
+
 (* candidate set of a vec (C19) *)
 Alts(e, env, D) == IF e.k = "vec" THEN {Eval(e.l[i], env, D) : i \in 1..Len(e.l)} ELSE {Eval(e, env, D)}
 
